@@ -1,0 +1,53 @@
+//go:build verif
+
+package custom
+
+// Contracts for govc (see /verif/DESIGN.md).  Comment-only file.
+
+//@ import rulelist github.com/AdguardTeam/AdGuardDNS/internal/filter/internal/rulelist
+//@ import time time
+//@ import errcoll github.com/AdguardTeam/AdGuardDNS/internal/errcoll
+
+//@ immutable Filters.*, cacheItem.*
+
+// ---------------------------------------------------------------------------
+// C12: a cached custom rule list is served only to a configuration that is not
+// newer than the one it was compiled from.
+//
+// rlStamp[rl] is the update time of the configuration whose rules rl was
+// compiled from; every cached item carries exactly that time.
+//@ ghost rlStamp map[*rulelist.Immutable]time.Time
+//@ pred cfItem(f *Filters, id string) = toptr(asval[f.cache][id], cacheItem)
+//@ pred CF(f *Filters) = forall id string :: ashas[f.cache][id] ==> allocated(cfItem(f, id)) && allocated(cfItem(f, id).ruleList) &&
+//@        cfItem(f, id).updTime == rlStamp[cfItem(f, id).ruleList]
+
+//@ func rulelist.NewImmutable
+//@   modifies nothing
+//@   ensures err == nil ==> f != nil && fresh(f)
+//@   ensures err != nil ==> f == nil
+//@ func (*rulelist.filter).RulesCount
+//@   modifies nothing
+//@ interface errcoll.Interface method Collect
+//@   modifies nothing
+
+//@ func (*Filters).get
+//@   property C12
+//@   requires f != nil && ref(f.cache) != 0 && c != nil && CF(f)
+//@   modifies nothing
+//@   ensures never-older-than-the-requesting-configuration: rl != nil ==> !timeBefore(rlStamp[rl], c.UpdateTime)
+
+//@ func (*Filters).set
+//@   property C12
+//@   requires f != nil && ref(f.cache) != 0 && c != nil && rl != nil && CF(f) && rlStamp[rl] == c.UpdateTime
+//@   modifies ashas[f.cache], asval[f.cache]
+//@   ensures CF(f)
+
+//@ func (*Filters).Get
+//@   property C12
+//@   requires f != nil && ref(f.cache) != 0 && f.logger != nil && ref(f.errColl) != 0 && c != nil && CF(f)
+//@   modifies ashas[f.cache], asval[f.cache], rlStamp
+//@   atcall set set rlStamp[rl] = c.UpdateTime
+//@   ensures CF(f)
+//@   ensures never-older-than-the-requesting-configuration: rl != nil ==> !timeBefore(rlStamp[rl], c.UpdateTime) || rlStamp[rl] == c.UpdateTime
+//@   loop 1 invariant -1 <= #i && #i < len(c.Rules)
+//@   loop 2 invariant -1 <= #i && #i < len(c.Rules)
